@@ -327,6 +327,50 @@ def tensor_gate_method(mk):
         mk.eq(f"gate({ix}, transpose=True): G^T applied", out.transpose(*t.inds).data, want)
 
 
+def _as_labelled(t, order):
+    """data of tensor ``t`` read through its OWN labels, as an array over ``order`` (explicit loops: does
+    not call Tensor.transpose, checks that every axis length agrees with the label it carries)"""
+    return ref.sum_of_products([(t.data, t.inds)], order)
+
+
+@obligation(PROP, params=[{"preserve": p, "transpose": tr, "inplace": ip, "shape": sh, "dims": d}
+                          for p in (True, False) for tr in (False, True) for ip in (False, True)
+                          for sh in ("square", "wide", "tall") for d in ((2, 3, 4), (2, 2, 2))])
+def tensor_gate_options(mk, preserve, transpose, inplace, shape, dims):
+    """Tensor.gate / gate_ on EVERY axis of a rank-3 tensor (pairwise distinct dims, and all-equal dims where a
+    mislabelled axis is silent), for every combination of preserve_inds x transpose x inplace and square /
+    non-square G: the result read through its own labels is G (resp. G^T) on that label; labels are the same set
+    (same order if preserve_inds, gated label first otherwise); receiver and G are untouched unless inplace"""
+    mk.encodes(tc.Tensor.gate)
+    order = ("a", "b", "c")
+    shp = tuple(dims)
+    dims = dict(zip(order, shp))
+    for ix in order:
+        data = mk.array("T", shp, "cplx")
+        data0 = data.copy()
+        t = qtn.Tensor(data, order, tags=["X", "Y"])
+        din = dims[ix]
+        dout = {"square": din, "wide": din - 1, "tall": din + 1}[shape]        # applied operator is dout x din
+        G = mk.array(f"G{ix}", (din, dout) if transpose else (dout, din), "cplx")
+        G0 = G.copy()
+        out = (t.gate_ if inplace else t.gate)(G, ix, preserve_inds=preserve, transpose=transpose)
+        lab = f"gate({ix}, preserve_inds={preserve}, transpose={transpose}, inplace={inplace}, {shape})"
+        mk.same(f"{lab}: inplace returns the receiver / otherwise a new tensor", out is t, inplace)
+        want_inds = order if preserve else (ix,) + tuple(i for i in order if i != ix)
+        mk.same(f"{lab}: labels (order as documented)", tuple(out.inds), want_inds)
+        want_shape = tuple(dout if i == ix else dims[i] for i in out.inds)
+        mk.same(f"{lab}: every axis has the size of the label it carries", tuple(out.shape), want_shape)
+        mk.same(f"{lab}: tags kept", set(out.tags), {"X", "Y"})
+        gl = (ix + "'", ix) if transpose else (ix, ix + "'")
+        want = ref.sum_of_products([(G0, gl), (data0, tuple(i + "'" if i == ix else i for i in order))], order)
+        if tuple(out.shape) == want_shape:
+            mk.eq(f"{lab}: value read through the result's own labels == G on {ix}", _as_labelled(out, order), want)
+        mk.eq(f"{lab}: G not modified", G, G0)
+        if not inplace:
+            mk.same(f"{lab}: receiver labels untouched", tuple(t.inds), order)
+            mk.eq(f"{lab}: receiver data untouched", t.data, data0)
+
+
 @obligation(PROP, params=[{"where": w} for w in ((0, 1), (1, 0), (0, 2))])
 def gate_inds_with_tn(mk, where):
     """gate given as a tensor network (gate_inds_with_tn)"""
@@ -341,3 +385,278 @@ def gate_inds_with_tn(mk, where):
     out = psi.gate_inds_with_tn(inds, gtn, ["i0", "i1"], ["o0", "o1"])
     G = ref.sum_of_products([(A, ("o0", "i0", "x")), (B, ("o1", "i1", "x"))], ("o0", "o1", "i0", "i1")).reshape(4, 4)
     check_vec(mk, f"gate_inds_with_tn where={where}", before, out, G, dims, where, sinds)
+
+
+# ---------------------------------------------------------------------- gate OBJECTS: arguments untouched, re-use, call history
+
+def _snap(obj):
+    """independent record of a gate object (array, Tensor or TensorNetwork): per tensor (labels, tags, data copy)
+    plus, for networks, the outer labels and the site-label templates"""
+    if isinstance(obj, np.ndarray):
+        return {"shape": tuple(obj.shape), "data": [np.array(obj, copy=True)]}
+    ts = list(obj.tensor_map.values()) if hasattr(obj, "tensor_map") else [obj]
+    s = {"inds": [tuple(t.inds) for t in ts], "tags": [frozenset(t.tags) for t in ts],
+         "shape": [tuple(t.shape) for t in ts], "data": [np.array(t.data, copy=True) for t in ts]}
+    if hasattr(obj, "tensor_map"):
+        s["outer"] = frozenset(obj.outer_inds())
+        s["ids"] = tuple(getattr(obj, a, None) for a in ("site_ind_id", "upper_ind_id", "lower_ind_id", "site_tag_id"))
+    return s
+
+
+def check_untouched(mk, label, obj, snap):
+    """the caller's gate object is exactly as it was before the call (labels, tags, shapes, data)"""
+    now = _snap(obj)
+    mk.same(f"{label}: gate object structure (labels, tags, shapes, outer labels, id templates) untouched",
+            {k: v for k, v in now.items() if k != "data"}, {k: v for k, v in snap.items() if k != "data"})
+    if [a.shape for a in now["data"]] == [a.shape for a in snap["data"]]:
+        for k, (a, b) in enumerate(zip(now["data"], snap["data"])):
+            mk.eq(f"{label}: gate object data[{k}] untouched", a, b)
+
+
+def _gate_network(mk, form):
+    """a gate OBJECT for gate_inds_with_tn: (object, inner labels, outer labels, dense matrix, number of sites)"""
+    if form == "tensor1":
+        A = mk.array("GA", (2, 2), "cplx")
+        return qtn.Tensor(A, ("o0", "i0"), tags=["OP"]), "i0", "o0", A, 1
+    if form == "tensor":
+        A = mk.array("GA", (2, 2, 2, 2), "cplx")
+        return qtn.Tensor(A, ("o0", "o1", "i0", "i1"), tags=["OP"]), ["i0", "i1"], ["o0", "o1"], A.reshape(4, 4), 2
+    A = mk.array("GA", (2, 2, 2), "cplx")       # (out, in, bond)
+    B = mk.array("GB", (2, 2, 2), "cplx")
+    gtn = qtn.TensorNetwork([qtn.Tensor(A, ("o0", "i0", "x"), tags=["OP", "OPA"]), qtn.Tensor(B, ("o1", "i1", "x"), tags=["OP", "OPB"])])
+    G = ref.sum_of_products([(A, ("o0", "i0", "x")), (B, ("o1", "i1", "x"))], ("o0", "o1", "i0", "i1")).reshape(4, 4)
+    return gtn, ["i0", "i1"], ["o0", "o1"], G, 2
+
+
+@obligation(PROP, params=[{"form": f, "inplace": ip, "first": w}
+                          for f in ("tensor1", "tensor", "tn") for ip in (False, True)
+                          for w in ([(0,), (2,)] if f == "tensor1" else _wheres(3, 2))])
+def gate_object_reuse_inds_with_tn(mk, form, inplace, first):
+    """gate_inds_with_tn / gate_inds_with_tn_ with ONE gate object (Tensor or TensorNetwork) used repeatedly: after
+    every call the gate object is untouched (labels, tags, data); the same object applied again - to a fresh state on
+    EVERY ordered target tuple, and stacked on top of the first result - acts as the same operator"""
+    mk.encodes(tc.TensorNetwork.gate_inds_with_tn)
+    psi, dims = mps(mk, 3, "cplx")
+    sinds = [psi.site_ind(i) for i in range(3)]
+    before = dense_vec(psi, sinds)
+    gate, gin, gout, G, n = _gate_network(mk, form)
+    snap = _snap(gate)
+
+    def apply(state, where):
+        inds = [sinds[w] for w in where] if n > 1 else sinds[where[0]]
+        if inplace:
+            state = state.copy()
+            r = state.gate_inds_with_tn_(inds, gate, gin, gout)
+            mk.same(f"where={where}: inplace returns the receiver", r is state, True)
+            return r
+        return state.gate_inds_with_tn(inds, gate, gin, gout)
+
+    out1 = apply(psi, first)
+    check_vec(mk, f"first use where={first}", before, out1, G, dims, first, sinds)
+    check_untouched(mk, f"after first use where={first}", gate, snap)
+    after1 = ref.matmul(ref.embed(G, dims, first), before)
+    for second in _wheres(3, n):
+        out2 = apply(psi, second)
+        check_vec(mk, f"second use (fresh state) where={second} after where={first}", before, out2, G, dims, second, sinds)
+        check_untouched(mk, f"after second use where={second}", gate, snap)
+        out3 = apply(out1, second)
+        check_vec(mk, f"stacked use where={second} on top of where={first}", after1, out3, G, dims, second, sinds)
+        check_untouched(mk, f"after stacked use where={second}", gate, snap)
+        mk.same(f"where={second}: first result not disturbed by later uses", set(out1.outer_inds()), set(sinds))
+    mk.eq(f"first result (where={first}) still has its value after all later uses", dense_vec(out1, sinds), after1)
+    mk.same("receiver untouched", (set(psi.outer_inds()), psi.num_tensors), (set(sinds), 3))
+    mk.eq("receiver value untouched", dense_vec(psi, sinds), before)
+
+
+def sub_mpo(mk, name, sites, L, kind="cplx", D=2):
+    """an operator network (MPO form, symbolic entries, no factorisation involved) acting on ``sites`` of ``L``"""
+    n = len(sites)
+    arrays = [mk.array(f"{name}{k}", (D, 2, 2) if k in (0, n - 1) else (D, D, 2, 2), kind) for k in range(n)]
+    A = qtn.MatrixProductOperator(arrays, sites=tuple(sites), L=L)
+    up = [A.upper_ind(s) for s in sites]
+    lo = [A.lower_ind(s) for s in sites]
+    Ad = ref.tn_dense(A, tuple(up) + tuple(lo)).reshape(2 ** n, 2 ** n)
+    return A, Ad
+
+
+_P_OPLAZY = ([{"entry": e, "flag": f, "inplace": ip, "sites": s}
+              for e in ("gate_with_op_lazy", "gate_with_submpo[lazy]") for f in (False, True) for ip in (False, True)
+              for s in ((0, 1), (0, 2), (1, 2), (0, 1, 2))]
+             + [{"entry": e, "flag": f, "inplace": ip, "sites": (0, 1)}
+                for e in ("gate_upper_with_op_lazy", "gate_lower_with_op_lazy", "gate_sandwich_with_op_lazy")
+                for f in (False, True) for ip in (False, True)])
+
+
+@obligation(PROP, params=_P_OPLAZY)
+def gate_object_reuse_op_lazy(mk, entry, flag, inplace, sites):
+    """gating with an operator NETWORK object (gate_with_op_lazy, gate_with_submpo(method='lazy'), gate_upper_/lower_/
+    sandwich_with_op_lazy; flag = transpose resp. dagger; plain and inplace): value as documented; the operator object is
+    untouched after every call (inplace_op is left at its default False); the same object used again - with either value
+    of the flag, on a fresh target and stacked on the first result - acts as the same operator"""
+    mk.encodes(ag.tensor_network_apply_op_vec, ag.tensor_network_apply_op_op, ag.TensorNetworkGenVector.gate_with_op_lazy,
+               ag.TensorNetworkGenOperator.gate_upper_with_op_lazy, ag.TensorNetworkGenOperator.gate_lower_with_op_lazy,
+               ag.TensorNetworkGenOperator.gate_sandwich_with_op_lazy, c1.MatrixProductState.gate_with_submpo)
+    vec = entry in ("gate_with_op_lazy", "gate_with_submpo[lazy]")
+    if vec:
+        L = 3
+        x, dims = mps(mk, L, "cplx")
+        outer = [x.site_ind(i) for i in range(L)]
+        before = dense_vec(x, outer)
+        dense = lambda tn: dense_vec(tn, outer)
+    else:
+        L = 2
+        x = mpo(mk, L, "cplx")
+        dims = [2] * L
+        outer = [x.upper_ind(i) for i in range(L)] + [x.lower_ind(i) for i in range(L)]
+        before = ref.tn_dense(x, tuple(outer)).reshape(2 ** L, 2 ** L)
+        dense = lambda tn: ref.tn_dense(tn, tuple(outer)).reshape(2 ** L, 2 ** L)
+    A, Ad = sub_mpo(mk, "A", sites, L)
+    E = ref.embed(Ad, dims, sites)
+    ET = np.asarray(E).T
+    snap = _snap(A)
+
+    def want(v, fl):
+        if vec:
+            return ref.matmul(ET if fl else E, v)
+        if entry == "gate_upper_with_op_lazy":
+            return ref.matmul(ET if fl else E, v)
+        if entry == "gate_lower_with_op_lazy":
+            return ref.matmul(v, ET if fl else E)
+        M = ref.dag(E) if fl else E
+        return ref.matmul(ref.matmul(M, v), ref.dag(M))
+
+    def apply(state, fl):
+        if inplace:
+            state = state.copy()
+        name = entry.split("[")[0] + ("_" if inplace else "")
+        kw = {"dagger": fl} if entry == "gate_sandwich_with_op_lazy" else {"transpose": fl}
+        if entry == "gate_with_submpo[lazy]":
+            kw["method"] = "lazy"
+        r = getattr(state, name)(A, **kw)
+        if inplace:
+            mk.same(f"{name}: inplace returns the receiver", r is state, True)
+        return r
+
+    def check(label, out, v):
+        mk.same(f"{label}: outer labels unchanged", set(out.outer_inds()), set(outer))
+        if set(out.outer_inds()) == set(outer):
+            mk.eq(f"{label}: dense as documented", dense(out), v)
+
+    out1 = apply(x, flag)
+    after1 = want(before, flag)
+    check(f"{entry} flag={flag} sites={sites}: first use", out1, after1)
+    check_untouched(mk, "after first use", A, snap)
+    for fl2 in (False, True):
+        out2 = apply(x, fl2)
+        check(f"{entry}: second use (fresh target, flag={fl2}) after flag={flag}", out2, want(before, fl2))
+        check_untouched(mk, f"after second use flag={fl2}", A, snap)
+        if entry != "gate_sandwich_with_op_lazy" and len(sites) == 2:
+            out3 = apply(out1, fl2)
+            check(f"{entry}: stacked use flag={fl2} on top of flag={flag}", out3, want(after1, fl2))
+            check_untouched(mk, f"after stacked use flag={fl2}", A, snap)
+    check(f"{entry}: first result still has its value after the later uses", out1, after1)
+    mk.same("receiver labels untouched", set(x.outer_inds()), set(outer))
+    mk.eq("receiver value untouched", dense(x), before)
+
+
+# ---------------------------------------------------------------------- simple-update gating (gate_simple / gate_simple_)
+
+def gen_vector(mk, edges, n, kind, D=2):
+    """arbitrary-geometry state (TensorNetworkGenVector) on ``n`` nodes with the given edges, bond dimension D"""
+    ts = []
+    for i in range(n):
+        inds = [f"b{min(e)}{max(e)}" for e in edges if i in e] + [f"k{i}"]
+        ts.append(qtn.Tensor(mk.array(f"N{i}", (D,) * (len(inds) - 1) + (2,), kind), inds, tags=[f"I{i}"]))
+    tn = qtn.TensorNetwork(ts)
+    return tn.view_as_(qtn.TensorNetworkGenVector, site_tag_id="I{}", site_ind_id="k{}", sites=range(n)), [2] * n
+
+
+def sym_gauges(mk, tn):
+    """a strictly positive symbolic gauge vector on EVERY bond of ``tn``"""
+    return {ix: mk.array(f"g_{ix}", (tn.ind_size(ix),), "pos") for ix in sorted(tn.inner_inds())}
+
+
+def physical_dense(tn, gauges, output_inds):
+    """the state a simple-update pair (tn, gauges) stands for: every bond weighted by its gauge vector (the gauge is a
+    rank-1 term sharing the bond label; explicit loops, independent of quimb's gauge_simple_insert)"""
+    terms = ref.tn_terms(tn) + [(np.asarray(g), (ix,)) for ix, g in gauges.items() if ix in tn.ind_map]
+    return ref.sum_of_products(terms, tuple(output_inds))
+
+
+_GS_EDGES = {"chain": ([(0, 1), (1, 2)], 3), "star": ([(0, 1), (1, 2), (1, 3)], 4), "ring+chord": ([(0, 1), (1, 2), (2, 3), (3, 0), (0, 2)], 4)}
+_GS_OPTS = {"plain": {}, "transpose": {"transpose": True}, "dagger": {"dagger": True}}
+
+
+def _gs_matrix(G, opt):
+    return ref.dag(G) if opt == "dagger" else (np.asarray(G).T if opt == "transpose" else G)
+
+
+@obligation(PROP, params=[{"geom": g, "opt": o, "inplace": ip, "wform": wf}
+                          for g in ("chain", "ring+chord") for o in _GS_OPTS for ip in (True, False) for wf in ("tuple", "site")])
+def gate_simple_one_site(mk, geom, opt, inplace, wform):
+    """gate_simple / gate_simple_ with a ONE-site gate on every site of a gauged arbitrary-geometry state (symbolic
+    positive gauge on every bond), plain / transpose / dagger, site given bare or as a 1-tuple: the physical state
+    (gauges re-absorbed) becomes (G | G^T | G^dag on that site) @ physical state; the gauge store is left as it was"""
+    mk.encodes(ag.tensor_network_ag_gate_simple, ag.tensor_network_ag_gate)
+    edges, n = _GS_EDGES[geom]
+    psi0, dims = gen_vector(mk, edges, n, "cplx")
+    sinds = [psi0.site_ind(i) for i in range(n)]
+    g0 = sym_gauges(mk, psi0)
+    before = physical_dense(psi0, g0, sinds).reshape(-1)
+    raw_before = dense_vec(psi0, sinds)
+    for site in range(n):
+        psi = psi0.copy()
+        gauges = {k: np.array(v, copy=True) for k, v in g0.items()}
+        G = mk.array(f"G{site}", (2, 2), "cplx")
+        G0 = G.copy()
+        where = (site,) if wform == "tuple" else site
+        out = (psi.gate_simple_ if inplace else psi.gate_simple)(G, where, gauges, cutoff=0.0, **_GS_OPTS[opt])
+        lab = f"gate_simple{'_' if inplace else ''}({opt}) where={where!r}"
+        mk.same(f"{lab}: inplace returns the receiver / otherwise a new network", out is psi, inplace)
+        mk.same(f"{lab}: outer labels unchanged", set(out.outer_inds()), set(sinds))
+        mk.same(f"{lab}: gauge store has the same bonds", set(gauges), set(g0))
+        for k in g0:
+            mk.eq(f"{lab}: gauge on {k} unchanged by a one-site gate", gauges[k], g0[k])
+        want = ref.matmul(ref.embed(_gs_matrix(G0, opt), dims, (site,)), before)
+        mk.eq(f"{lab}: physical state == (G on {site}) @ physical state", physical_dense(out, gauges, sinds).reshape(-1), want)
+        mk.same(f"{lab}: one tensor per site, site tags kept", (out.num_tensors, all(out.site_tag(i) in out.tag_map for i in range(n))), (n, True))
+        mk.eq(f"{lab}: G not modified", G, G0)
+        if not inplace:
+            mk.eq(f"{lab}: receiver untouched", dense_vec(psi, sinds), raw_before)
+
+
+_P_GS2 = [{"geom": g, "where": w, "opt": o}
+          for g, ws in (("chain", _wheres(3, 2)),)
+          for w in ws for o in _GS_OPTS]
+
+
+@obligation(PROP, params=_P_GS2, rounds=2, timeout_s=400, wall_s=300, max_rows=80000)
+def gate_simple_two_site(mk, geom, where, opt):
+    """gate_simple_ with a TWO-site gate on a gauged state (symbolic positive gauge on every bond): nearest-neighbour
+    pairs (reduced split of the gauged pair) and longer-range pairs (gate routed along the connecting path), both site
+    orders, plain / transpose / dagger, no truncation, renorm=False: the physical state (NEW gauges re-absorbed) equals
+    (G | G^T | G^dag on the pair, in the given order) @ old physical state; bonds away from the gate keep their gauge"""
+    mk.encodes(ag.tensor_network_ag_gate_simple, ag.tensor_network_ag_gate_simple_long_range, ag.tensor_network_ag_gate,
+               tc.TensorNetwork.gauge_simple_insert, tc.TensorNetwork.gauge_simple_remove, tc.tensor_gauge_simple_bond)
+    edges, n = _GS_EDGES[geom]
+    psi, dims = gen_vector(mk, edges, n, "real")
+    sinds = [psi.site_ind(i) for i in range(n)]
+    gauges = sym_gauges(mk, psi)
+    g0 = {k: np.array(v, copy=True) for k, v in gauges.items()}
+    before = physical_dense(psi, g0, sinds).reshape(-1)
+    G = mk.array("G", (4, 4), "real")
+    G0 = G.copy()
+    out = psi.gate_simple_(G, where, gauges, cutoff=0.0, renorm=False, smudge=0.0, **_GS_OPTS[opt])
+    lab = f"gate_simple_({opt}) where={where}"
+    mk.same(f"{lab}: returns the receiver", out is psi, True)
+    mk.same(f"{lab}: outer labels unchanged", set(out.outer_inds()), set(sinds))
+    mk.same(f"{lab}: same bonds, each with a gauge of the bond's size", {k: tuple(np.shape(v)) for k, v in gauges.items()},
+            {k: (out.ind_size(k),) for k in g0})
+    want = ref.matmul(ref.embed(_gs_matrix(G0, opt), dims, where), before)
+    mk.eq(f"{lab}: physical state == (G on {where}) @ physical state", physical_dense(out, gauges, sinds).reshape(-1), want)
+    mk.same(f"{lab}: one tensor per site, site tags kept", (out.num_tensors, all(out.site_tag(i) in out.tag_map for i in range(n))), (n, True))
+    mk.eq(f"{lab}: G not modified", G, G0)
+    path_bonds = {f"b{min(e)}{max(e)}" for e in edges if min(e) >= min(where) and max(e) <= max(where)} if geom == "chain" else None
+    for k in g0:
+        if path_bonds is not None and k not in path_bonds:
+            mk.eq(f"{lab}: gauge on {k} (away from the gate) unchanged", gauges[k], g0[k])
